@@ -10,6 +10,7 @@ indistinguishable from the unaltered run.
 """
 from __future__ import annotations
 
+import random
 import struct
 import typing as t
 
@@ -215,6 +216,11 @@ def make_tamper(alter, plan, state: dict):
                 pad = -len(stub) % 16
                 return rpce.build_response(stub + b"\x00" * pad, ctx_id=pdu["ctx_id"], call_id=pdu["call_id"],
                                            auth={"type": a["type"], "level": a["level"], "pad": pad, "ctx": a["ctx"], "value": b"\x00" * len(a["value"])})
+            if mode.startswith("sig-len-"):  # a trailer whose signature has another length than the security context's (dummy bytes), stub in clear
+                n_ = int(mode[8:])
+                pad = -len(stub) % 16
+                return rpce.build_response(stub + b"\x00" * pad, ctx_id=pdu["ctx_id"], call_id=pdu["call_id"],
+                                           auth={"type": a["type"], "level": a["level"], "pad": pad, "ctx": a["ctx"], "value": bytes(range(1, n_ + 1))})
             if mode == "level-none":  # trailer claims no protection
                 pad = -len(stub) % 16
                 return rpce.build_response(stub + b"\x00" * pad, ctx_id=pdu["ctx_id"], call_id=pdu["call_id"],
@@ -440,6 +446,71 @@ def run_raw(case) -> dict:
             "vtime_ns": world.stats.get("vtime_ns", 0)}
 
 
+def run_async_concurrent(case) -> dict:
+    """["aconc", ctx name, seed, kind]: 2..3 async protects in flight at once on one event loop (latencies up to 200 ms from the PRNG
+    decide how their conversations interleave: one call's unauthenticated EPM exchange falls between another call's sealed request
+    and its reply); the adversary replaces EVERY sealed GetKey reply by a cleartext one built from its own key.  Each call must
+    raise (or return a blob under the domain's key)."""
+    _, ctxname, seed, kind = case
+    plan = base_plan(ctxname, "p256", "protect", "async")
+    r = random.Random(seed)
+    op = dict(plan["ops"][0], fl="async", group=1)
+    plan["ops"] = [dict(op) for _ in range(2 + seed % 2)]
+    plan["seed"] = seed
+    plan["latency_us"] = [1, r.choice((300, 5000, 200000))]
+    plan["delivery"] = (None, {"mode": "rand", "seed": seed & 0xFFFF, "bias": "header"})[(seed // 2) % 2]
+    state: dict = {}
+    tamper = make_tamper(["strip", kind, "plain"], plan, state)
+
+    class Tampers(dict):
+        def get(self, k, d=None):
+            return tamper
+
+    import checks.plan as planmod
+
+    orig_world = W.World
+
+    class AdvWorld(orig_world):
+        def __init__(self, *a, **kw):
+            super().__init__(*a, **kw)
+            self.tampers = Tampers()
+
+    planmod.W.World = AdvWorld
+    try:
+        tr = P.execute_plan(plan)
+    finally:
+        planmod.W.World = orig_world
+    if not state.get("applied"):
+        raise common.HarnessError(f"adversary never got to act: {case}")
+    rk = tr.root_keys[0]
+    adv_rk = adv_root_key(plan["root_keys"][0])
+    viol = None
+    probes = {"alter_async_concurrent": 1}
+    for ot in tr.ops:
+        out = ot.outcome
+        if out.kind in ("raise", "blocks"):
+            probes["rejected"] = 1
+            continue
+        if out.kind != "ok":
+            viol = common.violation("C16", "strip-" + kind, "async-concurrent", out.kind, "", "", f"op {ot.idx}: call neither returned nor raised: {out.exc!r}")
+            break
+        try:
+            pt = cms.unprotect(out.value, rk)
+        except Exception:  # noqa: BLE001
+            pt = None
+        if pt == ot.plaintext:
+            continue
+        try:
+            apt = cms.unprotect(out.value, adv_rk)
+        except Exception:  # noqa: BLE001
+            apt = None
+        viol = common.violation("C16", "strip-" + kind, "async-concurrent", "adversary-key-used" if apt == ot.plaintext else "result-not-authentic", "protect", "",
+                                f"op {ot.idx} of {len(tr.ops)} concurrent async protects accepted the adversary's cleartext GetKey reply; ctx={ctxname} latency up to {plan['latency_us'][1]} us")
+        break
+    return {"viol": viol, "digest": tr.world.digest(), "key": common.key_hash(case), "sched_key": common.key_hash(tr.schedule) if tr.schedule else None,
+            "fired": {"strip": 1, "sched_choice_points": tr.world.stats.get("choice_points", 0)}, "probes": probes, "vtime_ns": tr.world.stats.get("vtime_ns", 0)}
+
+
 def run_threads(case) -> dict:
     """["threads", seed, policy]: two caller threads of one process protect at the same time (sync API).  The adversary owns the
     unauthenticated hop of the second lookup: it answers that ept_map request with a well-formed cleartext Response carrying a
@@ -527,6 +598,8 @@ def run(case) -> dict:
     """case: [ctxname, rkname, opname, flavour, alter]"""
     if case[0] == "threads":
         return run_threads(case)
+    if case[0] == "aconc":
+        return run_async_concurrent(case)
     if case[0] == "tworeq":
         return run_two_requests(case)
     if case[0] == "raw":
@@ -671,7 +744,7 @@ class C16(common.Check):
     level = "fault_enumeration"
     rule = ("case = (security context: StubCtx with/without header signing, real NTLM, real Negotiate->NTLM; operation protect|unprotect; "
             "flavour; alteration of the GetKey reply by an on-path adversary without the session key). Alterations: security trailer stripped "
-            "and a well-formed cleartext reply with adversary seed keys / public key substituted (also: zeroed signature, auth level NONE); "
+            "and a well-formed cleartext reply with adversary seed keys / public key substituted (also: zeroed signature, auth level NONE, a dummy signature of 1..32 octets that is not the context's signature length); "
             "every single-bit flip of the authentic reply (all bits for StubCtx and NTLM in thorough; strided in quick); frag_len / auth_len / "
             "pad_length / alloc_hint / auth level / auth type rewritten to {0,1,true+-1,true+-16,0xFFFF}; sealed stub substituted; sealed reply "
             "of an earlier connection replayed; handshake man-in-the-middle (security trailers removed from bind_ack / alter_context_resp, every "
@@ -679,7 +752,7 @@ class C16(common.Check):
             "continuation fragment appended; NegotiateFlags bits (SEAL, SIGN, KEY_EXCH, 128/56-bit, extended session security) cleared in the NTLM CHALLENGE of the bind_ack, the adversary then "
             "answering the alter_context and the request in the server's place; fault: the credential for the requested provider cannot be acquired (context creation raises: stub, real NTLM with an unknown user, "
             "Kerberos without the gssapi extras) while whoever answers an unauthenticated request on the key service port is the adversary; two requests on one connection through the raw client (first reply bit-flipped, second replaced by "
-            "a cleartext forgery; a call with an empty stub whose reply is replaced; a 'server too busy' fault injected before a cleartext Response; an adversary mapper that announces port 135 itself as the key endpoint and serves GetKey there without any security context; first reply untouched, second replaced by the first one again); two or three caller threads protecting at the "
+            "a cleartext forgery; a call with an empty stub whose reply is replaced; a 'server too busy' fault injected before a cleartext Response; an adversary mapper that announces port 135 itself as the key endpoint and serves GetKey there without any security context; first reply untouched, second replaced by the first one again); 2..3 async protects in flight at once on one event loop (PRNG latencies interleave one call's unauthenticated EPM exchange with another call's pending sealed reply) while every sealed reply is replaced by a cleartext forgery; two or three caller threads protecting at the "
             "same time (sync API, deterministic thread scheduler biased to the instants after socket reads and unwraps) while the adversary answers "
             "the unauthenticated endpoint-mapper request of the later lookups with a cleartext Response carrying its own GetKey reply. Non-trivial = every case (each alters the reply); distinct = distinct tuple.")
     components = {"client": "real (public API, RPC client, AuthenticationProvider)", "security context": "real pyspnego NTLM / Negotiate->NTLM (initiator and acceptor) and StubCtx (stub)",
@@ -687,7 +760,7 @@ class C16(common.Check):
                   "transport / entropy / clock": "simulated"}
     assumptions = ["outcome-based: a correct client may reject earlier or later or tolerate a change in an unprotected field, as long as the result equals the authentic one",
                    "pyspnego NTLM signs data_readonly buffers too, so 'header signing off' is only observable with StubCtx"]
-    required_fired = ("alter_strip", "alter_flip", "alter_lenfix", "alter_subst", "alter_replay", "alter_mitm-handshake", "alter_connect-flap", "alter_epm-port-135", "alter_busy-fault", "alter_no-credential", "alter_ntlm-flags", "empty_stub_request", "alter_fragment", "alter_tworeq", "alter_tworeq_replay", "alter_threads", "thread_overlap", "epm_reply_replaced", "raw_request_level", "rejected")
+    required_fired = ("alter_strip", "alter_flip", "alter_lenfix", "alter_subst", "alter_replay", "alter_mitm-handshake", "alter_connect-flap", "alter_epm-port-135", "alter_busy-fault", "alter_no-credential", "alter_ntlm-flags", "alter_async_concurrent", "empty_stub_request", "alter_fragment", "alter_tworeq", "alter_tworeq_replay", "alter_threads", "thread_overlap", "epm_reply_replaced", "raw_request_level", "rejected")
 
     def exhaustive(self, tier):
         return tier == "thorough"
@@ -703,7 +776,7 @@ class C16(common.Check):
             for opname in ("protect", "unprotect"):
                 for fl in ("sync", "async"):
                     for kind in ("seed", "pub"):
-                        for mode in ("plain", "zero-sig", "level-none"):
+                        for mode in ("plain", "zero-sig", "level-none", "sig-len-8", "sig-len-12", "sig-len-1", "sig-len-4", "sig-len-17", "sig-len-32"):
                             out.append([ctxname, "p256", opname, fl, ["strip", kind, mode]])
                     out.append([ctxname, "p256", opname, fl, ["replay"]])
                     for fk in ("last-only", "first-last"):
@@ -761,6 +834,9 @@ class C16(common.Check):
             for fl in ("sync", "async"):
                 out.append([ctxname, "dh", "protect", fl, ["strip", "seed", "plain"]])
                 out.append([ctxname, "dh", "protect", fl, ["strip", "pub", "plain"]])
+        rnga = prng.stream(seed, "C16", "async-concurrent")
+        for k in range(240 if tier == "quick" else 12000):
+            out.append(["aconc", ("stub-hs", "stub-nohs", "ntlm")[k % 3], rnga.getrandbits(30), ("seed", "pub")[(k // 3) % 2]])
         from checks import threadpure
 
         rngt = prng.stream(seed, "C16", "threads")
@@ -777,7 +853,7 @@ class C16(common.Check):
 
             yield from threadpure.shrinks(case, 2, None, lambda c: {"_script": (run_threads(c).get("_scripts") or {}).get("0")})
             return
-        if case[0] in ("tworeq", "raw"):
+        if case[0] in ("tworeq", "raw", "aconc"):
             return
         ctxname, rkname, opname, fl, alter = case
         if fl == "async":
@@ -790,6 +866,8 @@ class C16(common.Check):
     def sample_repr(self, case, res):
         if case[0] == "threads":
             return dict(zip(("kind", "seed", "thread_policy"), case))
+        if case[0] == "aconc":
+            return dict(zip(("kind", "ctx", "seed", "adversary_reply_kind"), case))
         if case[0] == "tworeq":
             return dict(zip(("kind", "ctx", "flavour", "flipped_bit_of_first_reply"), case))
         if case[0] == "raw":
